@@ -27,6 +27,7 @@ type Profile struct {
 	SignalBeh          []string // behaviours on signal to draw from ("" dies, hold, ignore)
 	Disabled           bool
 	Ordered            bool
+	OrderedPct         int // percent of the projects that shut down in reverse dependency order
 	MaxSteps           int
 	APIOps             []string // api ops enabled in the step phase
 	Holds              []string // yield points that may be armed (before Run starts)
@@ -106,7 +107,7 @@ func irange(t *rapid.T, lo, hi int, label string) int {
 func GenProject(t *rapid.T, pr Profile) *sc.Scenario {
 	n := irange(t, pr.MinProcs, pr.MaxProcs, "nprocs")
 	nm := names(n)
-	s := &sc.Scenario{Ordered: pr.Ordered}
+	s := &sc.Scenario{Ordered: pr.Ordered || pct(t, pr.OrderedPct, "ordered")}
 	codes := pr.Codes
 	if len(codes) == 0 {
 		codes = []int{0, 0, 1, 2, 130}
